@@ -133,7 +133,7 @@ def run(tier, seed, build=True):
                 o, c, (a, b), bz = it
                 wargs = (["-a", fmt_bound_ns(a)] if a is not None else []) + (["-b", fmt_bound_ns(b)] if b is not None else [])
                 args = c13.argv_of(o, c, paths)
-                args = args[:4] + wargs + (["--blocksz", str(bz)] if bz else []) + args[4:]
+                args = args[:3] + wargs + (["--blocksz", str(bz)] if bz else []) + args[3:]
                 r_s = common.run_s4(["-s"] + args, cwd=wd)
                 r_n = common.run_s4(args, cwd=wd)
                 return it, args, r_s, r_n
